@@ -1520,6 +1520,12 @@ def _build():
         what="[R-default-quote] as C01-double-quote-in-string-default-not-escaped: the prose default \"say \"hi\"\" makes the parser raise SyntaxError (class/pydantic/function with emit_default_doc)",
         site="cdd/shared/pure_utils.py:quote / cdd/shared/defaults_utils.py", example="{'alpha': {'typ': 'str', 'default': 'say \"hi\"'}} with emit_default_doc=True"))
     out.append(dict(
+        id="C02-argparse-numeric-literal-zero-default", property="C02",
+        pattern=dict(check="format_roundtrip", fmt="argparse", entry="param", typ_class="Literal", default_kind="ABSENT", field="default", expected="ABSENT", observed="int"),
+        what="[R-argparse-zero-default] argparse: a default-less parameter typed Literal[1, 2] (emitted with type=int) is read back with the invented zero default 0 - which is not even a member",
+        site="cdd/argparse_function/utils/emit_utils.py:parse_out_param / cdd/shared/ast_utils.py:infer_type_and_default",
+        example="{'alpha': {'typ': 'Literal[1, 2]', 'doc': 'the value'}} through argparse"))
+    out.append(dict(
         id="C02-google-multiline-description-truncated", property="C02",
         pattern=dict(check="format_roundtrip", style="google", multiline_doc=True, field="doc", observed="truncated"),
         what="[R-google-continuation-unindented] as C01-google-multiline-description-continuation-unindented: in Google style only the first line of a multi-line description comes back",
@@ -1531,6 +1537,7 @@ FINDINGS = _build()
 FIXED = [
     'fixed: property=C02 fc46805 class/pydantic/function with emit_default_doc: string default with a full stop cut at the dot or SyntaxError',
     'fixed: property=C02 26237d2 class/pydantic/function with emit_default_doc: string default with a double quote raised SyntaxError on parse',
+    "fixed: property=C02 57d6e6f argparse: parsing add_argument(type=int, choices=(1, 2), default=2) raised TypeError (', '.join over ints); Literal[1, 2] with a default could not make the round trip",
     "fixed: property=C02 efa4dbd function with emit_default_doc: empty-string default left a dangling 'Defaults to' in the description",
 ]
 
